@@ -159,6 +159,14 @@ type headHandler struct{}
 
 func (headHandler) HandleWrite(ctx OutboundContext, message Message) {
 	var ch = ctx.Channel()
+
+	// one message at a time: a message may take several low-level writes (io.WriterTo, io.Reader)
+	// and the bytes of messages written by different goroutines must not interleave on the wire.
+	if c, ok := ch.(*channel); ok {
+		c.messageLock.Lock()
+		defer c.messageLock.Unlock()
+	}
+
 	switch m := message.(type) {
 	case []byte:
 		utils.AssertLength(ch.Write1(m))
